@@ -82,6 +82,7 @@ def w2_tasks(tier, seed, heavy=1):
     for sl in range(4): t.append(('w2', 't5', sl, 4, tier, seed))
     for sk, gk in F.t3_shards(1, 1, F.T3_KINDS_QUICK): t.append(('w2', ('t3', 1, sk, gk), 0, 1, tier, seed))
     t.append(('w2', 'wide', 0, 1, tier, seed))
+    for sl in range(3): t.append(('w2', 'big', sl, 3, tier, seed))
     if tier == 'thorough':
         for sk, gk in F.t3_shards(1, 2, ['NAND2', 'XOR2', 'MUX21']): t.append(('w2', ('t3', 1, sk, gk), 0, 1, tier, seed))
         for sk, gk in F.t3_shards(0, 2, F.T3_KINDS_QUICK): t.append(('w2', ('t3', 2, sk, gk), 0, 1, tier, seed))
@@ -130,6 +131,7 @@ def wide():
 def w2_circuits(task):
     fam, sl, nsl, tier, seed = task[1], task[2], task[3], task[4], task[5]
     if fam == 'wide': return wide()
+    if fam == 'big': return F.take_slice(F.big(), nsl, sl)
     if fam == 't1': g = t1_wave()
     elif fam == 't2':
         g = t2_wave()
